@@ -284,7 +284,8 @@ func loadDoc(t *Trace, dir string, k int, s4, s6 csec, ifs []Ev, r *rand.Rand, m
 	if text == "" {
 		text = "# nothing configured\n"
 	}
-	path := filepath.Join(dir, fmt.Sprintf("conf-%d.yml", k))
+	// the name of the file says nothing about its content: it is a YAML document whatever it is called
+	path := filepath.Join(dir, fmt.Sprintf("conf-%d%s", k, []string{".yml", ".yml", ".yaml", ".conf", ".cfg", "", ".yml.new", ".json", ".toml"}[k%9]))
 	os.WriteFile(path, []byte(text), 0o644)
 	var (
 		c   *config.Config
